@@ -88,7 +88,7 @@ PROPS = {
                 "path meta header, authenticator options of 0..40 bytes, timestamp options holding crafted control messages, SCMP types; CSPTP truncations with consistent length fields; NTS-KE records with lying lengths, "
                 "cookies of 0..2000 bytes, non-IP server names, short port and AEAD records; garbage instead of a TLS handshake). After each burst a well-formed sentinel request on the same socket must be answered "
                 "(listeners) or a clean exchange must still succeed (clients); non-trivial = at least two crafted inputs; distinct = distinct event-log hash",
-        "required_probes": ["sentinel-answered", "mode:ip-listener", "mode:scion-listener", "mode:csptp-listener", "mode:ntske-server", "mode:ip-client", "mode:scion-client", "mode:csptp-client", "mode:ntske-client"],
+        "required_probes": ["sentinel-answered", "mode:ip-listener", "mode:scion-listener", "mode:csptp-listener", "mode:ntske-server", "mode:ip-client", "mode:scion-client", "mode:csptp-client", "mode:ntske-client", "sealed-request-odd-identifier"],
         "components": {"real": ["core/server runIPServer, runSCIONServer (NTP, SCMP, forwarder), runCSPTPServerIP, handleKeyExchangeTLS", "core/client IPClient, SCIONClient, CSPTPClientIP", "net/ntske Fetcher, ReadData, cookies",
                                 "net/nts, net/ntp, net/csptp, net/udp (cmsg parsers), net/scion auth.go", "gopacket/slayers decoding"],
                        "stub": dict(STUBS_COMMON, **{"kernel UDP/TCP": "simnet", "hostile peers": "scripted"}),
